@@ -7,7 +7,7 @@ from hypothesis import strategies as st
 from vlib import gens
 from vlib.core import Prop, Sub, Violation, calling, check
 from vlib.oracles import bvls, lp_dist, lp_sum_extreme
-from vlib.systems import Sys, matrix_system, target_rows
+from vlib.systems import proportional_variant, Sys, matrix_system, target_rows
 
 HIGH = dict(solver="CLARABEL", tol_gap_abs=1e-9, tol_gap_rel=1e-9, tol_feas=1e-9, max_iter=500)
 
@@ -20,6 +20,7 @@ def var_system():
 def var_case(draw):
     shape = draw(st.sampled_from(["under", "under", "exact"]))
     sysd = draw(matrix_system(m=(2, 4), shape=shape, surplus=(1, 3), ub_kinds=("finite",), lb_kinds=("zero", "zero", "pos"), sub_cond=1e4))
+    sysd, _prop = draw(proportional_variant(sysd))
     sv = Sys(sysd)
     rows = draw(target_rows(sysd, ["interior", "interior", "outside", "scaled_out"], nrows=(1, 2), margin=(0.05, 0.45)))
     ek = draw(st.sampled_from(["none", "none_fn", "hetero", "explicit", "explicit", "unc2d", "unc3d"]))
@@ -34,7 +35,7 @@ def var_case(draw):
     W = draw(st.one_of(st.none(), gens.array((sv.m,), 0.4, 2.5, styles=("raw",))))
     return dict(system=sysd, rows=rows, eps_kind=ek, eps=eps_abs, samples=samples, use_l1=use_l1, l1_t=draw(st.floats(0.0, 1.0)), W=W,
                 l2_eps=draw(gens.log_uniform(1e-4, 1e-2)), l1_eps=draw(gens.log_uniform(1e-3, 1e-1)),
-                accuracy=draw(st.sampled_from(["high", "high", "default"])), repeat=draw(st.sampled_from([False, False, True])))
+                accuracy=draw(st.sampled_from(["high", "high", "default"])), repeat=draw(st.sampled_from([False, False, True])), proportional=_prop)
 
 
 def propagated(eps_abs, K):
@@ -151,6 +152,8 @@ def body_var(case):
     X, Bp, Bv = np.asarray(X), np.asarray(Bp), np.asarray(Bv)
     check(X.shape == (B.shape[0], sv.n) and Bp.shape == B.shape and Bv.shape == B.shape, "var:shape", f"{X.shape} {Bp.shape} {Bv.shape}")
     labs = sv.labels() + [f"eps:{ek}", "L1" if L1 is not None else "noL1", "acc:high" if high else "acc:default", "W" if w_arg is not None else "noW"]
+    if case.get("proportional"):
+        labs.append("proportional-sources")
     if case.get("repeat"):
         # the same request on the same estimator / with the same arrays: the variance model in force must not drift between calls
         for name, a, b_ in zip(("intensities", "predicted capture", "capture variance"), (X, Bp, Bv), again):
